@@ -39,7 +39,6 @@ import (
 	"io"
 	"net"
 	"os"
-	"runtime/pprof"
 	"sort"
 	"strings"
 	"sync"
@@ -299,6 +298,11 @@ func variantsFor(full, short string) []*variant {
 				ctx = newTx(e, ctx)
 				e.cl.TxSQLExec(ctx, &schema.SQLExecRequest{Sql: fmt.Sprintf("INSERT INTO tseed(id, v) VALUES (%d, 'tx')", e.freshN())})
 				return ctx
+			}}, {Name: "create-table-commit", okFrom: lvRW, changes: true, build: func(e *env) proto.Message { return &emptypb.Empty{} },
+			pre: func(e *env, ctx context.Context) context.Context {
+				ctx = newTx(e, ctx)
+				e.cl.TxSQLExec(ctx, &schema.SQLExecRequest{Sql: "CREATE TABLE " + e.fresh("t") + "(id INTEGER, PRIMARY KEY id)"})
+				return ctx
 			}}}
 	case "Rollback":
 		return []*variant{{Name: "open-tx", build: func(e *env) proto.Message { return &emptypb.Empty{} }, pre: newTx}}
@@ -307,6 +311,8 @@ func variantsFor(full, short string) []*variant {
 			return &schema.SQLExecRequest{Sql: fmt.Sprintf("INSERT INTO tseed(id, v) VALUES (%d, 'tx')", e.freshN())}
 		}}, {Name: "insert-commit", okFrom: lvRW, changes: true, pre: newTx, build: func(e *env) proto.Message {
 			return &schema.SQLExecRequest{Sql: fmt.Sprintf("INSERT INTO tseed(id, v) VALUES (%d, 'tx'); COMMIT;", e.freshN())}
+		}}, {Name: "create-table-commit", okFrom: lvRW, changes: true, pre: newTx, build: func(e *env) proto.Message {
+			return &schema.SQLExecRequest{Sql: "CREATE TABLE " + e.fresh("t") + "(id INTEGER, PRIMARY KEY id); COMMIT;"}
 		}}}
 	case "TxSQLQuery":
 		return []*variant{{Name: "select", pre: newTx, build: func(e *env) proto.Message { return &schema.SQLQueryRequest{Sql: "SELECT id, v FROM tseed"} }}}
@@ -415,7 +421,7 @@ func variantsFor(full, short string) []*variant {
 		return []*variant{
 			{Name: "create-table", okFrom: lvRW, changes: true, build: sq(func(e *env) string { return "CREATE TABLE " + e.fresh("t") + "(id INTEGER, PRIMARY KEY id)" })},
 			{Name: "insert", okFrom: lvRW, changes: true, build: sq(func(e *env) string { return fmt.Sprintf("INSERT INTO tseed(id, v) VALUES (%d, 'x')", e.freshN()) })},
-			{Name: "use-named", need: nRead, Named: true, okFrom: lvR, build: sq(func(e *env) string { return "USE DATABASE " + e.named })},
+			{Name: "use-named", need: nRead, Named: true, okFrom: lvRW, build: sq(func(e *env) string { return "USE DATABASE " + e.named })},
 			{Name: "create-user", need: nAdmin, Admin: true, okFrom: lvAdmin, changes: true, build: sq(func(e *env) string {
 				return "CREATE USER " + e.fresh("nu") + " WITH PASSWORD '" + userPw + "' READ"
 			})},
@@ -555,6 +561,7 @@ type env struct {
 	hist     []cellRef
 	snap     map[string]string
 	acqNotes []string
+	stale    bool                // the credentials may have been altered by a breach: continue with new principals
 	created  map[string][]string // db -> collections / tables created by this group's requests (dropped at the end)
 }
 
@@ -614,7 +621,9 @@ func newHost() *host {
 	defer func() { tHost.Add(int64(time.Since(t0))) }()
 	h := &host{adminSes: map[string]string{}, gen: map[string]int64{}, used: map[string]bool{}, docIDs: map[string]string{}}
 	h.dir = lib.Scratch("c18")
-	so := sessions.DefaultOptions().WithMaxSessions(1 << 20).WithSessionGuardCheckInterval(time.Second)
+	// sessions never expire by real time (a loaded machine must not change the matrix); the guard runs every 5 ms
+	so := sessions.DefaultOptions().WithMaxSessions(1 << 20).WithSessionGuardCheckInterval(5 * time.Millisecond).
+		WithTimeout(24 * time.Hour).WithMaxSessionInactivityTime(24 * time.Hour)
 	opts := server.DefaultOptions().WithDir(h.dir).WithPort(0).WithAuth(true).WithMetricsServer(false).WithWebServer(false).
 		WithPgsqlServer(false).WithAdminPassword("immudb").WithSynced(false).WithSessionOptions(so).
 		WithGRPCReflectionServerEnabled(false).WithLogFormat(logger.LogFormatJSON).WithNoHistograms(true)
@@ -638,32 +647,38 @@ func newHost() *host {
 	must(err, "dial")
 	h.cl = schema.NewImmuServiceClient(h.conn)
 	h.dc = protomodel.NewDocumentServiceClient(h.conn)
-	a := h.actx(dbDef)
-	u32 := func(v uint32) *schema.NullableUint32 { return &schema.NullableUint32{Value: v} }
-	// small buffers: the defaults allocate several hundred MB per server (systemdb and defaultdb keep them)
-	small := &schema.DatabaseNullableSettings{MaxConcurrency: u32(2), MaxIOConcurrency: u32(1), MaxActiveTransactions: u32(10), MaxTxEntries: u32(64),
-		WriteBufferSize: u32(1 << 16), TxLogCacheSize: u32(10), VLogCacheSize: u32(10), ReadTxPoolSize: u32(4),
-		AhtSettings:   &schema.AHTNullableSettings{WriteBufferSize: u32(1 << 16)},
-		IndexSettings: &schema.IndexNullableSettings{CacheSize: u32(100), MaxActiveSnapshots: u32(10), FlushBufferSize: u32(1 << 16)}}
-	for _, db := range []string{dbOwn, dbOther} {
-		_, err := h.cl.CreateDatabaseV2(a, &schema.CreateDatabaseRequest{Name: db, Settings: small})
-		must(err, "create "+db)
-	}
-	// permanent seeds: every stored value carries the marker of its database
 	for _, db := range []string{dbOwn, dbOther, dbDef} {
-		a := h.actx(db)
-		mk := markers[db]
-		_, err := h.cl.Set(a, &schema.SetRequest{KVs: []*schema.KeyValue{kv(kSeed, mk+"-kv")}})
-		must(err, "seed kv "+db)
-		_, err = h.cl.ZAdd(a, &schema.ZAddRequest{Set: []byte("zs"), Score: 1, Key: []byte(kSeed)})
-		must(err, "seed zadd")
-		if db == dbDef {
-			continue // a foreign database for every principal: the KV marker is enough (its store options cannot be made small)
-		}
-		_, err = h.cl.SQLExec(a, &schema.SQLExecRequest{Sql: "CREATE TABLE tseed(id INTEGER, v VARCHAR, PRIMARY KEY id); INSERT INTO tseed(id, v) VALUES (1, '" + mk + "-sql');"})
-		must(err, "seed sql")
+		h.createDB(db)
 	}
 	return h
+}
+
+// createDB creates dbown / dbother (small store options) and stores the permanent seeds: every value carries the
+// marker of its database.
+func (h *host) createDB(db string) {
+	if db != dbDef {
+		u32 := func(v uint32) *schema.NullableUint32 { return &schema.NullableUint32{Value: v} }
+		// small buffers: the defaults allocate several hundred MB per server (systemdb and defaultdb keep them)
+		small := &schema.DatabaseNullableSettings{MaxConcurrency: u32(2), MaxIOConcurrency: u32(1), MaxActiveTransactions: u32(10), MaxTxEntries: u32(64),
+			WriteBufferSize: u32(1 << 16), TxLogCacheSize: u32(10), VLogCacheSize: u32(10), ReadTxPoolSize: u32(4),
+			AhtSettings:   &schema.AHTNullableSettings{WriteBufferSize: u32(1 << 16)},
+			IndexSettings: &schema.IndexNullableSettings{CacheSize: u32(100), MaxActiveSnapshots: u32(10), FlushBufferSize: u32(1 << 16)}}
+		_, err := h.cl.CreateDatabaseV2(h.actx(dbDef), &schema.CreateDatabaseRequest{Name: db, Settings: small})
+		must(err, "create "+db)
+	}
+	delete(h.adminSes, db)
+	h.gen[db], h.used[db] = 0, false
+	a := h.actx(db)
+	mk := markers[db]
+	_, err := h.cl.Set(a, &schema.SetRequest{KVs: []*schema.KeyValue{kv(kSeed, mk+"-kv")}})
+	must(err, "seed kv "+db)
+	_, err = h.cl.ZAdd(a, &schema.ZAddRequest{Set: []byte("zs"), Score: 1, Key: []byte(kSeed)})
+	must(err, "seed zadd")
+	if db == dbDef {
+		return // a foreign database for every principal: the KV marker is enough (its store options cannot be made small)
+	}
+	_, err = h.cl.SQLExec(a, &schema.SQLExecRequest{Sql: "CREATE TABLE tseed(id INTEGER, v VARCHAR, PRIMARY KEY id); INSERT INTO tseed(id, v) VALUES (1, '" + mk + "-sql');"})
+	must(err, "seed sql")
 }
 
 func (h *host) close() {
@@ -737,36 +752,6 @@ func newEnv(h *host, g group) *env {
 	e.acquire()
 	e.transition()
 	e.snap = e.snapshot()
-	if os.Getenv("C18_BENCH") != "" {
-		for _, db := range allDBs {
-			a := e.actx(db)
-			t := time.Now()
-			for i := 0; i < 50; i++ {
-				e.cl.CurrentState(a, &emptypb.Empty{})
-			}
-			t1 := time.Since(t)
-			t = time.Now()
-			for i := 0; i < 50; i++ {
-				e.cl.GetDatabaseSettingsV2(a, &schema.DatabaseSettingsRequest{})
-			}
-			t2 := time.Since(t)
-			t = time.Now()
-			for i := 0; i < 50; i++ {
-				e.cl.Health(a, &emptypb.Empty{})
-			}
-			fmt.Println("BENCH", db, "50xCurrentState", t1, "50xSettings", t2, "50xHealth", time.Since(t))
-		}
-		t := time.Now()
-		for i := 0; i < 50; i++ {
-			e.cl.ListUsers(e.actx(dbDef), &emptypb.Empty{})
-		}
-		fmt.Println("BENCH 50xListUsers", time.Since(t))
-		t = time.Now()
-		for i := 0; i < 50; i++ {
-			e.snapshot()
-		}
-		fmt.Println("BENCH 50xsnapshot", time.Since(t))
-	}
 	return e
 }
 
@@ -821,9 +806,9 @@ func (e *env) acquire() {
 		ok := err == nil
 		e.acqNotes = append(e.acqNotes, fmt.Sprintf("%s(%q) granted=%v", full[strings.LastIndex(full, "/")+1:], db, ok))
 		c.Eval("")
-		if ok && g.userLevel(db, e.sysGrant) < lvR {
-			ge := g
-			ge.State = "valid" // the acquisition itself happens before the state transition
+		ge := g
+		ge.State = "valid" // the acquisition itself happens before the state transition
+		if ok && ge.userLevel(db, e.sysGrant) < lvR {
 			report(e, ge, full, "acquire", "succeeded", fmt.Sprintf("credentials for database %q were granted to user %s whose only rights are: role %s on %s", db, e.user, g.Role, dbOwn), nil)
 		}
 	}
@@ -841,18 +826,27 @@ func (e *env) acquire() {
 		}
 		return
 	}
+	// legacy token: Login, then UseDatabase. An expired token is one issued with an expiry in the past.
 	expired := g.State == "expired"
-	if expired && g.Sel == "none" {
-		e.s.Options.TokenExpiryTimeMin = -1
+	login := func(exp bool) string {
+		if exp {
+			e.s.Options.TokenExpiryTimeMin = -1
+		}
+		lr, err := e.cl.Login(bg, &schema.LoginRequest{User: []byte(e.user), Password: []byte(e.pass)})
+		e.s.Options.TokenExpiryTimeMin = 1440
+		must(err, "principal login")
+		return lr.Token
 	}
-	lr, err := e.cl.Login(bg, &schema.LoginRequest{User: []byte(e.user), Password: []byte(e.pass)})
-	e.s.Options.TokenExpiryTimeMin = 1440
-	must(err, "principal login")
-	e.md = []string{"authorization", lr.Token}
+	if g.Mech == "token2" {
+		login(false) // a second client of the same user is logged in as well
+	}
 	if g.Sel == "none" {
+		e.md = []string{"authorization", login(expired)}
 		return
 	}
-	lctx := metadata.AppendToOutgoingContext(bg, "authorization", lr.Token)
+	tok := login(false)
+	e.md = []string{"authorization", tok}
+	lctx := metadata.AppendToOutgoingContext(bg, "authorization", tok)
 	try := func(db string) bool {
 		if expired {
 			e.s.Options.TokenExpiryTimeMin = -1
@@ -865,15 +859,8 @@ func (e *env) acquire() {
 		}
 		return err == nil
 	}
-	if !try(target) && target != dbOwn {
-		if !try(dbOwn) && expired {
-			// no database can be selected: use an expired login token
-			e.s.Options.TokenExpiryTimeMin = -1
-			lr, err := e.cl.Login(bg, &schema.LoginRequest{User: []byte(e.user), Password: []byte(e.pass)})
-			e.s.Options.TokenExpiryTimeMin = 1440
-			must(err, "principal login")
-			e.md = []string{"authorization", lr.Token}
-		}
+	if !try(target) && (target == dbOwn || !try(dbOwn)) && expired {
+		e.md = []string{"authorization", login(true)} // no database can be selected: an expired login token
 	}
 }
 
@@ -888,7 +875,7 @@ func (e *env) transition() {
 			s.SetLastActivityTime(time.Unix(0, 0))
 			// wait for the real sessions guard (1 ms tick) to remove it; a wait, not an oracle
 			for i := 0; e.s.SessManager.SessionPresent(e.sessID); i++ {
-				if i > 20000 {
+				if i > 60000 {
 					harnessBug("sessions guard did not expire the session")
 				}
 				time.Sleep(time.Millisecond)
@@ -1153,7 +1140,6 @@ func report(e *env, g group, full, vname, effect, detail string, hist []cellRef)
 		Replay: replay{Group: e.g, Cells: append([]cellRef{}, hist...)}})
 }
 
-var finishHook func()
 var debug = os.Getenv("C18_DEBUG") != ""
 
 var (
@@ -1193,7 +1179,8 @@ func runCell(e *env, m *method, v *variant) {
 			break
 		}
 	}
-	if res.err == nil && forbidden(g, e, m, v) {
+	delivered := res.err == nil || res.nResp > 0 // a stream that delivered messages before failing did serve the caller
+	if delivered && forbidden(g, e, m, v) {
 		vs = append(vs, verdict{"succeeded", fmt.Sprintf("the call returned OK (%d response message(s), %d bytes)", res.nResp, len(res.resp))})
 	}
 	errs := "OK"
@@ -1228,7 +1215,7 @@ func runCell(e *env, m *method, v *variant) {
 		if lv >= v.okFrom {
 			k := fmt.Sprintf("%s %s by %s", m.Full, v.Name, g.Role)
 			posSeen[k] = true
-			if res.err == nil && (!v.changes || len(changed) > 0) {
+			if delivered && (!v.changes || len(changed) > 0) {
 				posOK[k] = true
 			} else if _, ok := posOK[k]; !ok {
 				posOK[k] = false
@@ -1247,12 +1234,27 @@ func runCell(e *env, m *method, v *variant) {
 	e.snap = after
 	// environment upkeep
 	if len(vs) > 0 {
-		e.host.dirty = true // after a breach the server is in a state nobody should have produced: start over
-		return
+		// after a breach: data written to dbown/dbother does not disturb later cells (the consumables count as used);
+		// anything else (systemdb, settings, database list) is a state nobody should have produced: start over
+		for _, comp := range diff(before, after) {
+			_, db, _ := strings.Cut(comp, ":")
+			if comp == "users" {
+				continue
+			}
+			if (db == dbOwn || db == dbOther) && !strings.HasPrefix(comp, "settings:") {
+				e.used[db] = true
+				continue
+			}
+			e.host.dirty = true
+			return
+		}
+		if nd := m.Need; !g.valid() && (nd == nUnclassified || nd == nNoAuth || nd == nAuth) {
+			e.stale = true // e.g. a Logout that should have been refused: the (wrongly accepted) credentials may be gone now
+		}
 	}
 	for _, db := range allDBs {
 		if strings.HasPrefix(after["tx:"+db], "ERR") {
-			e.host.dirty = true // a base database was deleted by an authorised principal
+			e.host.dirty = true // a base database was deleted by an authorised principal (its name cannot be reused on this server)
 			return
 		}
 	}
@@ -1329,6 +1331,10 @@ func runGroup(g group, cells []cell) {
 				c.Add("host_rebuilds", 1)
 			}
 			e = newEnv(getHost(), g)
+		} else if e.stale {
+			e.finish()
+			e.host.groups--
+			e = newEnv(e.host, g)
 		}
 		runCell(e, cl.m, cl.v)
 	}
@@ -1376,6 +1382,35 @@ func groupsFor(thorough bool) (par []group, serial []group) {
 			}
 		}
 	}
+	if !thorough {
+		// a sample of the other session states and of the token mechanism (the full product is the thorough tier)
+		for _, g := range []group{{"rw", "own", "valid", "token"}, {"rw", "own", "expired", "session"}, {"rw", "own", "deactivated", "session"},
+			{"rw", "own", "revoked", "session"}, {"rw", "own", "deactivated", "token"}, {"rw", "own", "deactivated", "token2"}} {
+			add(g)
+		}
+	}
+	// groups of writers and admins rebuild servers more often: start them first
+	sort.SliceStable(par, func(i, j int) bool {
+		w := func(g group) int {
+			if g.valid() {
+				return -roleLevel[g.Role]
+			}
+			return 1
+		}
+		return w(par[i]) < w(par[j])
+	})
+	if thorough {
+		// legacy token while a second client of the same user is logged in too ("token2"), invalidated after login
+		for _, r := range roles[:4] {
+			add(group{r, "own", "deactivated", "token2"})
+			if r != "none" {
+				add(group{r, "own", "revoked", "token2"})
+			}
+			if r == "rw" || r == "admin" {
+				add(group{r, "own", "downgraded", "token2"})
+			}
+		}
+	}
 	return
 }
 
@@ -1383,12 +1418,6 @@ func main() {
 	c = lib.New("C18", "exploration", 100*time.Second, 25*time.Minute)
 	if null, err := os.OpenFile(os.DevNull, os.O_WRONLY, 0); err == nil {
 		os.Stderr = null // the database manager of DefaultServer() logs to os.Stderr
-	}
-	if pf := os.Getenv("C18_PROF"); pf != "" {
-		f, _ := os.Create(pf)
-		pprof.StartCPUProfile(f)
-		defer pprof.StopCPUProfile()
-		finishHook = pprof.StopCPUProfile
 	}
 	methods := loadMethods()
 	perSvc := map[string]int{}
@@ -1438,13 +1467,15 @@ func main() {
 
 	var cells []cell
 	for _, m := range methods {
-		if !c.Thorough() && false {
-			continue
-		}
 		for _, v := range m.Variants {
 			cells = append(cells, cell{m, v})
 		}
 	}
+	// a successful Login with the principal's own password re-registers the user at the server and thereby changes
+	// what the group's (possibly invalidated) token means: these requests run after all the others
+	sort.SliceStable(cells, func(i, j int) bool {
+		return !(cells[i].m.Short == "Login" && cells[i].v.Name == "own-creds") && cells[j].m.Short == "Login" && cells[j].v.Name == "own-creds"
+	})
 	par, serial := groupsFor(c.Thorough())
 	c.Set("groups", len(par)+len(serial))
 	if f := os.Getenv("C18_GROUP"); f != "" { // development aid: run only the groups whose name contains f
@@ -1480,9 +1511,6 @@ func main() {
 	sort.Strings(failed)
 	c.Set("positive_controls_ok", okN)
 	c.Set("positive_controls_failed", failed)
-	if finishHook != nil {
-		finishHook()
-	}
 	c.Sample(map[string]any{"cell": "method x request x role x db x session x auth", "example": "/immudb.schema.ImmuService/Set new-key by r/own/valid/session => must be refused, snapshot of all 4 databases unchanged"})
 	c.Finish("every method of the 3 public services x every request variant x every (role, database selection, session state, auth mechanism) group of the tier; "+
 		"snapshot of all databases + user list before/after each call; distinct = distinct (method, request, group, outcome)", !c.Expired())
